@@ -17,7 +17,7 @@ import ast
 import z3
 from z3 import And, Or, Not, If, Implies, Int, Ints, IntVal, BoolVal, ForAll, Function, IntSort, BoolSort
 
-from pyvc.front import select, SelectorError, OutOfSubset, find_all
+from pyvc.front import select, SelectorError, OutOfSubset, find_all, strip_doc as front_strip
 from pyvc.symex import Exec, State, LoopSpec
 from pyvc.contract import suffix
 from pyvc.sv import SV, I, B, T, fresh_int
@@ -71,6 +71,37 @@ def named(st, term, label):
     c = fresh_int(label)
     st.assume(c == term)
     return c
+
+
+def _has_quantifier(e, seen=None):
+    seen = set() if seen is None else seen
+    if e.get_id() in seen:
+        return False
+    seen.add(e.get_id())
+    if z3.is_quantifier(e):
+        return True
+    return any(_has_quantifier(c, seen) for c in e.children())
+
+
+def instances(hyps, terms):
+    """quantifier-free weakening of a hypothesis list: conjunctions are split, a universally quantified hypothesis over one or
+    two integers is replaced by its instances at the given terms, any other hypothesis containing a quantifier is dropped.
+    Every formula returned is implied by the list given, so an obligation discharged from the result holds a fortiori; the
+    query is decidable, which is what makes a *failing* obligation produce a counterexample instead of `unknown`."""
+    out, stack = [], list(hyps)
+    while stack:
+        h = stack.pop()
+        if z3.is_and(h):
+            stack.extend(h.children())
+        elif z3.is_quantifier(h):
+            if h.is_forall() and h.num_vars() <= 2 and all(h.var_sort(k) == IntSort() for k in range(h.num_vars())) and not _has_quantifier(h.body()):
+                if h.num_vars() == 1:
+                    out.extend(z3.substitute_vars(h.body(), t) for t in terms)
+                else:
+                    out.extend(z3.substitute_vars(h.body(), t1, t2) for t1 in terms for t2 in terms)
+        elif not _has_quantifier(h):
+            out.append(h)
+    return out
 
 
 class Witnesses:
@@ -281,6 +312,123 @@ class SortTh(Vals):
         R, pi, pinv = tv.sorted_result(ex, st, hL, lambda a, b: CMP(a, b) <= 0)
         self.sorted_calls.append((hL, R, pi, pinv, how))
         return V(R)
+
+
+# ------------------------------------------------------------------------------------------------ dictable.sort: the table as seen by sort
+class TableTh(Vals):
+    """what dictable.sort needs to know about `self` (assumed here, property C01's business): len(self) = N rows, every column is
+    a list of N values, self[by] is the list K of one key per row, type(self)(dict of columns) is the table with those columns.
+    zip(keys, range(n)), list(...) of it and zip(*rows) are axiomatised on the handle model (new tuple objects per row)."""
+
+    def __init__(self, contracts, N, K, COL):
+        Vals.__init__(self, contracts)
+        self.N, self.K, self.COL = N, K, COL
+        self.pair = None
+        self.reads = []                 # (sequence handle, position read) of every xs[i] executed
+
+    def call(self, ex, st, e, fname, args, kwargs):
+        a0 = args[0] if args else None
+        if fname == 'len' and len(args) == 1 and a0.kind == 'obj' and a0.f.get('cls') == 'dictable':
+            ex.use('assumed contract:len(table) is its number of rows N (C01)')
+            return I(self.N)
+        if fname == 'len' and len(args) == 1 and a0.kind == 'kwdict':
+            return I(a0.t)
+        if fname == 'type' and len(args) == 1 and a0.kind == 'obj':
+            return SV('class', None, name=a0.f.get('cls'))
+        if fname == 'zip' and len(args) == 2 and a0.kind == 'val' and args[1].kind == 'range':
+            ex.raise_if(st, Not(is_seq(a0.t)), 'TypeError')
+            return SV('zipvr', None, a=a0.t, r=args[1])
+        if fname == 'list' and len(args) == 1 and a0.kind == 'zipvr':
+            return self.list_of_pairs(ex, st, a0)
+        return Vals.call(self, ex, st, e, fname, args, kwargs)
+
+    def list_of_pairs(self, ex, st, zv):
+        """list(zip(xs, range(..))): a new list of new 2-tuples (xs[j], the int lo + j*step)"""
+        a, r = zv.f['a'], zv.f['r']
+        Z = fresh_int('pairs')
+        PAIR = Function(tv.fresh_name('PAIR'), IntSort(), IntSort())
+        n = If(ln(a) <= r.n, ln(a), r.n)
+        j = Int('j!pr')
+        ex.use('axiom:list(zip(xs, range(n))) is a new list of new tuples (xs[j], j); tuples / lists built from values of the universe are values of '
+               'the universe (row counts stay below 2**53)')
+        ex.fact(And(tag(Z) == LIST_T, ln(Z) == n, inU(Z),
+                    ForAll([j], Implies(And(0 <= j, j < n),
+                                        And(at(Z, j) == PAIR(j), tag(PAIR(j)) == TUPLE_T, ln(PAIR(j)) == 2, at(PAIR(j), 0) == at(a, j),
+                                            tag(at(PAIR(j), 1)) == INT_T, iv(at(PAIR(j), 1)) == r.lo + j * r.step)), patterns=[at(Z, j)], ),
+                    ForAll([j], Implies(And(0 <= j, j < n), And(tag(PAIR(j)) == TUPLE_T, ln(PAIR(j)) == 2, at(PAIR(j), 0) == at(a, j),
+                                                                iv(at(PAIR(j), 1)) == r.lo + j * r.step)), patterns=[PAIR(j)])))
+        self.pair = PAIR
+        return V(Z)
+
+    def method(self, ex, st, e, recv, mname, args, kwargs):
+        if recv.kind == 'obj' and recv.f.get('cls') == 'dictable':
+            if mname == 'copy' and not args:
+                ex.use('assumed contract:table.copy() is a table with the same rows (C01)')
+                return recv
+            if mname == 'items' and not args:
+                return SV('tableitems', None, table=recv)
+        return NotImplemented
+
+    def subscript(self, ex, st, e, recv, idx):
+        if recv.kind == 'obj' and recv.f.get('cls') == 'dictable' and idx.kind == 'val':
+            ex.use('assumed contract:table[tuple of key columns / key functions] is the list of one key per row (dictable.__getitem__, C01)')
+            return V(self.K)
+        if recv.kind == 'val' and idx.kind == 'val':
+            h, i = recv.t, idx.t
+            ex.raise_if(st, Not(is_seq(h)), 'TypeError')
+            ex.raise_if(st, Not(tv.tag_in(i, (INT_T, BOOL_T))), 'TypeError')
+            k = If(tag(i) == BOOL_T, If(bv(i), 1, 0), iv(i))
+            ex.raise_if(st, Not(And(-ln(h) <= k, k < ln(h))), 'IndexError')
+            ex.use('axiom:xs[i] on a tuple / list with an int index (negative indices count from the end, IndexError outside)')
+            pos = If(k >= 0, k, k + ln(h))
+            self.reads.append((h, pos))
+            return V(at(h, pos))
+        return NotImplemented
+
+    def pre_call(self, ex, st, e):
+        if isinstance(e.func, ast.Name) and e.func.id == 'zip' and len(e.args) == 1 and isinstance(e.args[0], ast.Starred) and not e.keywords:
+            v = ex.eval(st, e.args[0].value)
+            if v.kind != 'val':
+                raise OutOfSubset('zip(*%s)' % v.kind)
+            ex.raise_if(st, Not(is_seq(v.t)), 'TypeError')
+            return SV('zipstar', named(st, v.t, 'rows'))
+        return Vals.pre_call(self, ex, st, e)
+
+    def unpack(self, ex, st, v, k):
+        if v.kind == 'zipstar':
+            R = v.t
+            p = Int('p!zs')
+            ex.use('axiom:zip(*rows) transposes: unpacking it into k names needs at least one row... every row of length k')
+            ex.raise_if(st, ln(R) == 0, 'ValueError')
+            ex.raise_if(st, z3.Exists([p], And(0 <= p, p < ln(R), Not(And(is_seq(at(R, p)), ln(at(R, p)) == k)))), 'ValueError')
+            cols = []
+            for c in range(k):
+                cols.append(SV('lazylist', None, n=ln(R), at=(lambda st2, j, c=c: V(at(at(R, j), c)))))
+            return T(cols)
+        return NotImplemented
+
+    def expr(self, ex, st, e):
+        if isinstance(e, ast.DictComp) and len(e.generators) == 1 and not e.generators[0].ifs:
+            g = e.generators[0]
+            it = ex.eval(st, g.iter)
+            if it.kind != 'tableitems':
+                raise OutOfSubset('dict comprehension over %s' % it.kind)
+            ex.use('assumed contract:table.items() yields (column name, column) and every column is a list of N values (rectangular, C01); '
+                   'the comprehension is evaluated for a generic column')
+            sub = st.fork(); sub.env = dict(st.env); sub.pending = []; sub.guards = list(st.guards)
+            ex.assign(sub, g.target, T([SV('colname'), V(self.COL)]), None)
+            kv = ex.eval(sub, e.key)
+            vv = ex.eval(sub, e.value)
+            st.pc = sub.pc
+            st.pending.extend(sub.pending)
+            return SV('tabledict', None, key=kv, value=vv)
+        return Vals.expr(self, ex, st, e)
+
+    def call_value(self, ex, st, e, fn, args, kwargs):
+        if fn.kind == 'class' and fn.f.get('name') == 'dictable' and len(args) == 1 and args[0].kind == 'tabledict':
+            ex.use('assumed contract:type(self)(dict of equal-length columns) is the table with those columns (C01)')
+            return SV('obj', None, cls='dictable', columns=args[0])
+        return Vals.call_value(self, ex, st, e, fn, args, kwargs)
 
 
 # ------------------------------------------------------------------------------------------------ machinery
@@ -561,6 +709,119 @@ def build(ctx):
         ctx.cover('sort.pre_satisfiable.tuples', hy0 + [ln(xs) == 2, tag(at(xs, 0)) == TUPLE_T, tag(at(xs, 1)) == TUPLE_T, ln(at(xs, 0)) == 2,
                                                         at(xs, 0) != at(xs, 1), is_nan(at(at(xs, 0), 1))])
     ctx.guarded('sort', sort_section)
+
+    # ------------------------------------------------------------------ dictable.sort: stable permutation of the rows
+    def table_section():
+        md = ctx.mod('_dictable')
+        fd = md.func('dictable.sort')
+        N, K, COL, BY, NBV = Ints('N K COL BY NBV')
+        calls = []
+
+        def as_tuple_contract(ex, st, args, kwargs):
+            ex.use('assumed contract:as_tuple(by) is the tuple of the key columns / key functions given (C19)')
+            return args[0]
+        th = TableTh({'sort': sort_contract(calls), 'as_tuple': as_tuple_contract}, N, K, COL)
+        ex = Exec(md, [th], inline={}, name='dictable.sort')
+        i, j = Ints('i!k j!k')
+        st = State(env={'self': SV('obj', None, cls='dictable'), 'by': V(BY), 'byval': SV('kwdict', NBV)})
+        st.pc += tv.universe_axioms(TAGS) + [COMPAT_DEF(), 0 <= N, N < tv.INT_EXACT, NBV >= 0, tag(BY) == TUPLE_T, ln(BY) >= 1,
+                                              inU(K), tag(K) == LIST_T, ln(K) == N, tag(COL) == LIST_T, ln(COL) == N,
+                                              ForAll([i, j], Implies(And(0 <= i, i < N, 0 <= j, j < N), COMPAT(at(K, i), at(K, j))),
+                                                     patterns=[z3.MultiPattern(at(K, i), at(K, j))])]
+        hy0 = list(st.pc); base = len(st.pc)
+        outs = ex.run_block(st, front_strip(fd.body))
+        wt = dict(N=N); wt.update(tv.witness_fields('x', K))
+        t_hints = [N <= 3]
+        for k in range(3):
+            wt.update(tv.witness_fields('x%d' % k, at(K, k)))
+            t_hints += tv.small_hints(at(K, k)) + [is_scalar(at(K, k))]
+        for ob in ex.obligations:
+            ob.witness = ob.witness or wt
+            ob.meta.setdefault('replay', rp('dictable.sort'))
+            ob.meta['search_hints'] = t_hints
+        ctx.absorb(ex)
+        ctx.record_function(md, 'dictable.sort', fd, ex.stmts_executed,
+                            excluded=['**byval branch (value orders: dict(zip(vals, range)), d.get(row[k], len(d))): dict keys are outside the deductive '
+                                      'universe; bounded stand-in only',
+                                      'self[by], self.copy(), self.items(), type(self)(...), as_tuple: assumed contracts of the table (C01 / C19)'])
+        bad, main = [], 0
+        p, q = Ints('P Q')
+        for out in outs:
+            if out.kind != 'return':
+                bad.append(suffix(out.st, base)); continue
+            r = out.val
+            if r.kind == 'obj' and 'columns' not in r.f:
+                # `return self.copy()`: no rows, or no keys given
+                ctx.post('dictable.sort.copy_only_without_rows_or_keys', ex.facts + out.st.pc, Or(N == 0, ln(BY) == 0), witness=wt, replay=rp('dictable.sort'))
+                continue
+            if r.kind != 'obj':
+                raise OutOfSubset('dictable.sort returns a %s' % r.kind)
+            main += 1
+            if len(calls) != 1:
+                # the row order does not come from one call of sort(): nothing orders the rows
+                ctx.post('dictable.sort.rows_ordered_by_key_and_ties_keep_original_order', ex.facts + out.st.pc, BoolVal(False), witness=wt,
+                         replay=rp('dictable.sort'))
+                continue
+            Z, R, pi, pinv = calls[0]
+            NC = r.f['columns'].f['value']
+            if NC.kind != 'lazylist':
+                raise OutOfSubset('the new column is a %s' % NC.kind)
+            hy = ex.facts + out.st.pc
+            # (1) every column is re-ordered by one and the same permutation pi of the row numbers
+            s2 = out.st.fork(); s2.pc = list(out.st.pc) + [0 <= p, p < N]
+            del th.reads[:]
+            el = NC.at(s2, p)
+            if len(th.reads) != 1 or th.reads[0][0].get_id() != COL.get_id() or el.t.get_id() != at(COL, th.reads[0][1]).get_id():
+                raise OutOfSubset('the new column is not built from one read value[i] of the old column')
+            qf = instances(ex.facts + s2.pc, [p, pi(p), pinv(p)])
+            ctx.post('dictable.sort.each_column_is_permuted_by_the_sorting_permutation', qf, And(NC.n == N, th.reads[0][1] == pi(p)),
+                     witness=dict(wt, P=p), replay=rp('dictable.sort'))
+            ctx.post('dictable.sort.the_sorting_permutation_is_a_bijection_of_the_rows', qf,
+                     And(0 <= pi(p), pi(p) < N, pinv(pi(p)) == p, 0 <= pinv(p), pinv(p) < N, pi(pinv(p)) == p), witness=dict(wt, P=p),
+                     replay=rp('dictable.sort'))
+            # (2) rows are ordered by key under cmp and ties keep their original order: lexicographic cmp of the (key, row number) pairs
+            Pp, Qq = at(R, p), at(R, q)
+            rel_PQ, _, ex1, w1, _ = run_cmp(ctx, mach, Pp, Qq, 'dictable.sort.cmp_of_pairs')
+            rel_ij, _, ex2, w2, _ = run_cmp(ctx, mach, at(Pp, 1), at(Qq, 1), 'dictable.sort.cmp_of_row_numbers')
+            ctx.trusted |= ex1.trusted | ex2.trusted
+            defs = [rel_PQ(CMP(Pp, Qq)), rel_ij(CMP(at(Pp, 1), at(Qq, 1))), depth(Pp) <= D, depth(Qq) <= D]
+            kp, kq = at(K, pi(p)), at(K, pi(q))
+            ctx.post('dictable.sort.rows_ordered_by_key_and_ties_keep_original_order',
+                     hy + ex1.facts + ex2.facts + defs + [0 <= p, p < q, q < N, And(CMP(kp, kq) >= -1, CMP(kp, kq) <= 1)],
+                     And(CMP(kp, kq) <= 0, Implies(CMP(kp, kq) == 0, pi(p) < pi(q))), witness=dict(wt, P=p, Q=q), replay=rp('dictable.sort'))
+            ctx.cover('dictable.sort.tie_between_two_rows_reachable', hy + ex1.facts + ex2.facts + defs + [0 <= p, p < q, q < N, N == 2, CMP(kp, kq) == 0,
+                                                                                                       is_nan(at(K, 0)), is_nan(at(K, 1)), at(K, 0) != at(K, 1)])
+        ctx.post('dictable.sort.never_raises', ex.facts + hy0, Not(Or(*bad)) if bad else BoolVal(True), kind='safety', witness=wt, replay=rp('dictable.sort'))
+        if main != 1:
+            raise OutOfSubset('dictable.sort: expected one path through sort(), found %d' % main)
+        ctx.cover('dictable.sort.pre_satisfiable', hy0 + [N == 3, ln(BY) == 2, tag(at(K, 0)) == TUPLE_T, ln(at(K, 0)) == 2, is_nan(at(at(K, 0), 0)),
+                                                         at(K, 0) != at(K, 1)])
+        ctx.trust('definition:CMP(a,b) is the value cmp(a,b) returns (instances of the body summary for the (key, row number) pairs and for two row numbers)')
+        ctx.trust('dictable.sort precondition:the keys of the rows are pairwise shape-compatible values of sort\'s universe (scalars, or equal-length '
+                  'tuples / lists of them); fewer than 2**53 rows')
+
+        # idempotence, on the characterisation just proved: sorting an already stably sorted key column leaves every row in place
+        SG = Function('sigma', IntSort(), IntSort()); SGI = Function('sigma_inv', IntSort(), IntSort())
+        KK = Function('sorted_key', IntSort(), IntSort())
+        a, b = Ints('a!idem b!idem')
+        inr = lambda t: And(0 <= t, t < N)
+        le = lambda u, v: CMP(KK(u), KK(v)) <= 0
+        sorted_keys = ForAll([a, b], Implies(And(inr(a), inr(b), a < b), le(a, b)))                          # the table is already sorted
+        bij = [ForAll([a], Implies(inr(a), And(inr(SG(a)), SGI(SG(a)) == a))), ForAll([a], Implies(inr(a), And(inr(SGI(a)), SG(SGI(a)) == a)))]
+        stable = ForAll([a, b], Implies(And(inr(a), inr(b), a < b), And(le(SG(a), SG(b)), Implies(CMP(KK(SG(a)), KK(SG(b))) == 0, SG(a) < SG(b)))))
+        anti = ForAll([a, b], Implies(And(inr(a), inr(b)), CMP(KK(a), KK(b)) == -CMP(KK(b), KK(a))))       # cmp.antisymmetric on the keys
+        hyI = [N >= 0, sorted_keys, stable, anti] + bij
+        ctx.post('dictable.sort.idempotent.permutation_of_sorted_rows_is_increasing', hyI + [inr(p), inr(q), p < q], SG(p) < SG(q), kind='lemma')
+        inc = ForAll([a, b], Implies(And(inr(a), inr(b), a < b), SG(a) < SG(b)))
+        inci = ForAll([a, b], Implies(And(inr(a), inr(b), a < b), SGI(a) < SGI(b)))
+        ctx.post('dictable.sort.idempotent.inverse_is_increasing', [N >= 0, inc] + bij + [inr(p), inr(q), p < q], SGI(p) < SGI(q), kind='lemma')
+        for nm, f, mono in (('permutation', SG, inc), ('inverse', SGI, inci)):
+            ctx.post('dictable.sort.idempotent.%s_at_least_identity.base' % nm, [N >= 1, mono] + bij, f(0) >= 0, kind='lemma')
+            ctx.post('dictable.sort.idempotent.%s_at_least_identity.step' % nm, [mono] + bij + [inr(p), inr(p + 1), f(p) >= p], f(p + 1) >= p + 1, kind='lemma')
+        ge = lambda f: ForAll([a], Implies(inr(a), f(a) >= a))
+        ctx.post('dictable.sort.idempotent.sorting_a_sorted_table_moves_no_row', [N >= 0, ge(SG), ge(SGI)] + bij + [inr(p)], SG(p) == p, kind='lemma')
+        ctx.trust('induction schema over the integers (base and step of `an increasing map of [0,N) into itself is >= identity` are separate obligations)')
+    ctx.guarded('dictable.sort', table_section)
 
     ctx.trust('induction schema over the nesting depth (finite, acyclic nesting): the step is discharged with the hypothesis instantiated at '
               'the witness indices of cmparr; the base case D = 0 is the same obligations on scalars')
